@@ -17,6 +17,7 @@ PUBLIC_OPS = (
     "reconf", "reconf", "forest", "anneal", "anneal", "anneal_slice", "temper",
     "slice_auto", "slice_reconf", "slice_reconf_forest", "copy", "stats", "stats",
     "manual", "sort", "reset", "nonplace_slice", "nonplace_reconf",
+    "nonplace_restore", "nonplace_unslice", "nonplace_anneal", "nonplace_slice_auto",
 )
 
 
@@ -33,35 +34,50 @@ def gen_history(rng, net, length, ops=PUBLIC_OPS, allow=None):
             op["ix"] = rng.choice(inds)
             if k == "project":
                 op["val"] = rng.randrange(net.sizes[op["ix"]])
-        elif k == "restore":
+        elif k in ("restore", "nonplace_restore"):
             op["pick"] = rng.randrange(1 << 16)
             op["ix"] = rng.choice(inds)  # fallback: slice this one when nothing is sliced yet
         elif k in ("reconf", "nonplace_reconf"):
             op.update(size=rng.choice([2, 3, 4, 6]), search=rng.choice(["bfs", "dfs", "random"]),
                       select=rng.choice(["max", "min", "random"]),
                       minimize=rng.choice(["flops", "size", "write", "combo", "limit"]),
-                      maxiter=rng.choice([1, 2, 5]), weight_what=rng.choice(["flops", "size"]))
+                      maxiter=rng.choice([1, 2, 5]), weight_what=rng.choice(["flops", "size"]),
+                      weight_pwr=rng.choice([2, 2, 1, 0.5, 3]),
+                      optimize=rng.choice([None, None, "greedy", "optimal"]))
         elif k == "forest":
             op.update(num_trees=rng.choice([2, 3]), num_restarts=rng.choice([1, 2]),
                       subtree_maxiter=rng.choice([1, 3]), subtree_size=rng.choice([3, 4]),
-                      minimize=rng.choice(["flops", "size", "combo"]))
-        elif k in ("anneal", "anneal_slice"):
+                      minimize=rng.choice(["flops", "size", "combo"]),
+                      subtree_search=rng.choice([["bfs", "dfs", "random"], ["bfs"], ["dfs"], ["random"]]),
+                      subtree_weight_what=rng.choice([["flops", "size"], ["flops"], ["size"]]),
+                      parallel_maxiter_steps=rng.choice([4, 1, 2]))
+        elif k in ("anneal", "anneal_slice", "nonplace_anneal"):
             op.update(tsteps=rng.choice([1, 2]), numiter=rng.choice([1, 2, 4]),
-                      minimize=rng.choice(["flops", "size", "combo"]))
+                      minimize=rng.choice(["flops", "size", "combo", None]),
+                      tstart=rng.choice([2, 2, 0.5, 10.0]), tfinal=rng.choice([0.05, 0.05, 0.001, 1.0]))
             if k == "anneal_slice":
                 op.update(div=rng.choice([2, 4, 8]), slice_mode=rng.choice(["basic", "reslice", "drift", 2]))
         elif k == "temper":
             op.update(tsteps=rng.choice([1, 2]), numiter=rng.choice([1, 2]), num_trees=rng.choice([2, 3]),
                       div=rng.choice([None, 2, 4]), slice_mode=rng.choice(["basic", "reslice", "drift"]),
-                      parallel_slice_mode=rng.choice(["temperature", "time", "constant"]))
-        elif k == "slice_auto":
+                      parallel_slice_mode=rng.choice(["temperature", "time", "constant"]),
+                      tstart=rng.choice([1, 1, 0.3, 5.0]), tfinal=rng.choice([0.01, 0.01, 0.5]),
+                      swappiness=rng.choice([1.0, 1.0, 0.1, 10.0]),
+                      coeff_size_penalty=rng.choice([1.0, 1.0, 0.0, 8.0]),
+                      minimize=rng.choice([None, None, "flops", "size", "combo"]),
+                      init_frac=rng.choice([None, None, 2, 8]))
+        elif k in ("slice_auto", "nonplace_slice_auto"):
             op.update(target=rng.choice(["size", "slices", "overhead"]), div=rng.choice([2, 4]),
                       nsl=rng.choice([2, 3, 4]), ovh=rng.choice([1.1, 2.0, 4.0]),
-                      allow_outer=rng.choice([True, True, False]), reslice=rng.random() < 0.2,
-                      max_repeats=rng.choice([1, 4]))
+                      allow_outer=rng.choice([True, True, False, "only"]), reslice=rng.random() < 0.2,
+                      max_repeats=rng.choice([1, 4]), minimize=rng.choice([None, None, "size", "write", "combo"]),
+                      temperature=rng.choice([0.01, 0.01, 1.0]))
         elif k in ("slice_reconf", "slice_reconf_forest"):
             op.update(div=rng.choice([2, 4]), step_size=rng.choice([2, 3]), max_repeats=rng.choice([1, 4]),
-                      reconf_size=rng.choice([3, 4]), num_trees=2)
+                      reconf_size=rng.choice([3, 4]), num_trees=2,
+                      reslice=rng.random() < 0.25, allow_outer=rng.choice([True, True, False]),
+                      minimize=rng.choice([None, None, "flops", "size", "combo"]),
+                      temperature=rng.choice([0.01, 0.01, 1.0]))
         elif k == "manual":
             op.update(size=rng.choice([2, 3, 4]), search=rng.choice(["bfs", "dfs", "random"]),
                       pick=rng.randrange(1 << 16))
@@ -70,7 +86,8 @@ def gen_history(rng, net, length, ops=PUBLIC_OPS, allow=None):
                       out=rng.random() < 0.7, con=rng.random() < 0.7, reset=rng.random() < 0.6)
         elif k == "stats":
             op["which"] = rng.choice(["contract_stats", "total_flops", "total_write", "max_size",
-                                      "peak_size", "force", "get_path", "combo", "has_pre"])
+                                      "peak_size", "force", "get_path", "combo", "has_pre",
+                                      "logs", "peak_order", "total_cost", "arithmetic_intensity"])
         hist.append(op)
     return hist
 
@@ -90,7 +107,16 @@ class Aborted(Exception):
         self.tree = tree
 
 
-SEARCH_OPS = ("slice_auto", "slice_reconf", "slice_reconf_forest", "anneal_slice", "temper", "unslice_rand")
+SEARCH_OPS = ("slice_auto", "nonplace_slice_auto", "slice_reconf", "slice_reconf_forest", "anneal_slice", "temper",
+              "unslice_rand")
+
+
+def _inner_optimizer(name):
+    """`subtree_reconfigure(optimize=...)` takes an optimizer *object* (it assigns `opt.cost_cap`)"""
+    if name is None:
+        return None
+    from cotengra.pathfinders.path_basic import GreedyOptimizer, OptimalOptimizer
+    return GreedyOptimizer() if name == "greedy" else OptimalOptimizer(minimize="size")
 
 
 def apply_op(tree, net, op):
@@ -132,6 +158,14 @@ def _apply_op(tree, net, op):
         if ix in tree.sliced_inds:
             raise Rejected("already sliced")
         return tree.remove_ind(ix), [{"k": "remove_ind", "ix": op["ix"], "project": False}]
+    if k == "nonplace_restore":
+        if not tree.sliced_inds:
+            raise Rejected("nothing sliced")
+        keys = list(tree.sliced_inds)
+        ix = keys[op["pick"] % len(keys)]
+        return tree.restore_ind(ix), [{"k": "restore_ind", "ix": gen.unsym(net)[ix]}]
+    if k == "nonplace_unslice":
+        return tree.unslice_all(), None
     if k == "restore":
         if not tree.sliced_inds:
             tree.remove_ind_(S(op["ix"]))
@@ -151,7 +185,7 @@ def _apply_op(tree, net, op):
     if k in ("reconf", "nonplace_reconf"):
         kw = dict(subtree_size=op["size"], subtree_search=op["search"], select=op["select"],
                   minimize=op["minimize"], maxiter=op["maxiter"], weight_what=op["weight_what"],
-                  seed=op["seed"])
+                  seed=op["seed"], weight_pwr=op.get("weight_pwr", 2), optimize=_inner_optimizer(op.get("optimize")))
         if k == "reconf":
             tree.subtree_reconfigure_(**kw)
             return tree, None
@@ -160,50 +194,66 @@ def _apply_op(tree, net, op):
         tree.subtree_reconfigure_forest_(num_trees=op["num_trees"], num_restarts=op["num_restarts"],
                                          subtree_maxiter=op["subtree_maxiter"],
                                          subtree_size=op["subtree_size"], minimize=op["minimize"],
+                                         subtree_search=tuple(op.get("subtree_search", ("bfs", "dfs", "random"))),
+                                         subtree_weight_what=tuple(op.get("subtree_weight_what", ("flops", "size"))),
+                                         parallel_maxiter_steps=op.get("parallel_maxiter_steps", 4),
                                          parallel=False, seed=op["seed"])
         return tree, None
-    if k in ("anneal", "anneal_slice"):
-        kw = dict(tsteps=op["tsteps"], numiter=op["numiter"], minimize=op["minimize"], seed=op["seed"])
+    if k in ("anneal", "anneal_slice", "nonplace_anneal"):
+        kw = dict(tsteps=op["tsteps"], numiter=op["numiter"], minimize=op["minimize"], seed=op["seed"],
+                  tstart=op.get("tstart", 2), tfinal=op.get("tfinal", 0.05))
         if k == "anneal_slice":
             kw["target_size"] = max(1, tree.max_size() // op["div"])
             kw["slice_mode"] = op["slice_mode"]
+        if k == "nonplace_anneal":
+            return tree.simulated_anneal(**kw), None
         tree.simulated_anneal_(**kw)
         return tree, None
     if k == "temper":
         kw = dict(tsteps=op["tsteps"], numiter=op["numiter"], num_trees=op["num_trees"],
                   slice_mode=op["slice_mode"], parallel_slice_mode=op["parallel_slice_mode"],
                   parallel=False, seed=op["seed"])
+        kw.update(tstart=op.get("tstart", 1), tfinal=op.get("tfinal", 0.01), swappiness=op.get("swappiness", 1.0),
+                  coeff_size_penalty=op.get("coeff_size_penalty", 1.0), minimize=op.get("minimize"))
         if op["div"]:
             kw["target_size"] = max(1, tree.max_size() // op["div"])
+            if op.get("init_frac"):
+                kw["target_size_initial"] = max(kw["target_size"], tree.max_size() // 1) * op["init_frac"]
         elif kw["parallel_slice_mode"] == "time":
             # parallel_slice_mode='time' without a target_size raises TypeError (next() on a tuple):
             # a crash on an option combination, outside C02/C04; recorded in DESIGN.md
             kw["parallel_slice_mode"] = "temperature"
         tree.parallel_temper_(**kw)
         return tree, None
-    if k == "slice_auto":
+    if k in ("slice_auto", "nonplace_slice_auto"):
         kw = dict(allow_outer=op["allow_outer"], reslice=op["reslice"], max_repeats=op["max_repeats"],
-                  seed=op["seed"])
+                  seed=op["seed"], temperature=op.get("temperature", 0.01))
+        if op.get("minimize") is not None:
+            kw["minimize"] = op["minimize"]
         if op["target"] == "size":
             kw["target_size"] = max(1, tree.max_size() // op["div"])
         elif op["target"] == "slices":
             kw["target_slices"] = op["nsl"]
         else:
             kw["target_overhead"] = op["ovh"]
+        if k == "nonplace_slice_auto":
+            return tree.slice(**kw), None
         tree.slice_(**kw)
         return tree, None
     if k in ("slice_reconf", "slice_reconf_forest"):
         target = max(1, tree.max_size() // op["div"])
         ro = {"subtree_size": op["reconf_size"], "maxiter": 2}
+        extra = dict(reslice=op.get("reslice", False), allow_outer=op.get("allow_outer", True),
+                     minimize=op.get("minimize"), temperature=op.get("temperature", 0.01))
         if True:
             if k == "slice_reconf":
                 tree.slice_and_reconfigure_(target, step_size=op["step_size"],
-                                            max_repeats=op["max_repeats"], reconf_opts=ro)
+                                            max_repeats=op["max_repeats"], reconf_opts=ro, **extra)
             else:
                 tree.slice_and_reconfigure_forest_(target, step_size=op["step_size"],
                                                    num_trees=op["num_trees"],
                                                    max_repeats=op["max_repeats"], parallel=False,
-                                                   reconf_opts=ro)
+                                                   reconf_opts=ro, **extra)
         return tree, None
     if k == "copy":
         return tree.copy(), []
@@ -227,6 +277,19 @@ def _apply_op(tree, net, op):
             tree.combo_cost()
         elif w == "has_pre":
             tree.has_preprocessing()
+        elif w == "logs":
+            tree.total_flops(log=10)
+            tree.total_write()
+            tree.max_size(log=2)
+            tree.total_flops(dtype="float")
+        elif w == "peak_order":
+            rr = random.Random(op["seed"])
+            sc = {}
+            tree.peak_size(order=lambda nd: sc.setdefault(nd, rr.random()), log=2)
+        elif w == "total_cost":
+            tree.total_cost(factor=rng.choice([1, 64, 256]))
+        elif w == "arithmetic_intensity":
+            tree.arithmetic_intensity()
         return tree, []
     if k == "manual":
         # a hand-made subtree reconfiguration out of the primitives, along a random path
